@@ -80,8 +80,18 @@ func (k *Keeper) SlashAssets(ctx sdk.Context, parameter *types.SlashInputInfo) (
 		return nil, err
 	}
 	// calculate the new slash proportion
-	newSlashProportion := slashUSDValue.Quo(stakingInfo.StakingAndWaitUnbonding)
-	newSlashProportion = sdkmath.LegacyMinDec(sdkmath.LegacyNewDec(1), newSlashProportion)
+	// the operator's current value can be zero (it has no assets left, or only dust), in which
+	// case the ratio is unbounded and the proportion is capped at 100%, unless there is
+	// nothing to slash at all.
+	newSlashProportion := sdkmath.LegacyNewDec(0)
+	switch {
+	case slashUSDValue.IsZero():
+	case !stakingInfo.StakingAndWaitUnbonding.IsPositive():
+		newSlashProportion = sdkmath.LegacyNewDec(1)
+	default:
+		newSlashProportion = slashUSDValue.Quo(stakingInfo.StakingAndWaitUnbonding)
+		newSlashProportion = sdkmath.LegacyMinDec(sdkmath.LegacyNewDec(1), newSlashProportion)
+	}
 
 	executionInfo := &types.SlashExecutionInfo{
 		SlashProportion:    newSlashProportion,
